@@ -554,20 +554,17 @@ pub fn run_batch_without_responses(
     let _ = load_balanced_inputs
         .par_iter()
         .map(|queries| {
-            // fold over query iterator allows us to propagate failures up while still using constant
-            // memory to hold the state of the result object. we can't similarly return error values from
-            // within a for loop or for_each call, and map creates more allocations. open to other ideas!
-            let initial: Result<(), CompassAppError> = Ok(());
-            let _ = queries.iter().fold(initial, |_, q| {
+            // try_for_each propagates a failure up (a response that cannot be written to the sink)
+            // while still using constant memory: the responses are not collected
+            queries.iter().try_for_each(|q| {
                 let mut response =
                     run_single_query(q, search_orientation, output_plugins, search_app)?;
                 if let Ok(mut pb_local) = pb.lock() {
                     let _ = pb_local.update(1);
                 }
                 response_writer.write_response(&mut response)?;
-                Ok(())
-            });
-            Ok(())
+                Ok::<(), CompassAppError>(())
+            })
         })
         .collect::<Result<Vec<_>, CompassAppError>>()?;
 
